@@ -248,7 +248,7 @@ def _ncyc_cases(draw):
              "non-trivial = at least one interior extremum",
         oracle="reference model: length, non-decreasing, value at the j-th reported (reference) peak = 0.5*j - 0.25*[origin]*[j>0], "
                "linear between; tolerance 8*eps*max(1, value)",
-        require={"lead-plateau": 0.25, "start=peak": 0.2, "start=origin": 0.2},
+        require={"lead-plateau": 0.25, "start=peak": 0.1, "start=origin": 0.1},
         min_nontrivial=0.3)
 def n_cyc(case, ctx):
     a, arg = series(case)
